@@ -138,17 +138,30 @@ func runC17(c *Ctx) {
 		okFound := false
 		var lps []lp
 		seenL := map[*Loop]bool{}
+		enterArgs := map[*Loop][]*Val{}
 		for _, ps := range paths {
-			for _, e := range ps.Events {
+			for i, e := range ps.Events {
 				if e.Kind == "loop" && !seenL[e.Loop] {
 					seenL[e.Loop] = true
 					lps = append(lps, lp{e.InFn, e.Loop})
+					// a walk that lives in a helper: the arguments the helper was entered with
+					for _, en := range ps.Events[:i] {
+						if en.Kind == "enter" && en.Fn == e.InFn {
+							enterArgs[e.Loop] = en.Args
+						}
+					}
 				}
 			}
 		}
 		for _, x := range lps {
 			l := x.l
 			body, _ := s.LoopBody(x.fn, l)
+			inHelper := func(side string) string {
+				if args, ok := enterArgs[l]; ok {
+					return substParams(side, x.fn, args)
+				}
+				return side
+			}
 			// the loop with an exit on "element == found dealer"
 			hasStop := false
 			for _, ps := range body {
@@ -160,7 +173,7 @@ func runC17(c *Ctx) {
 					// the walk stops at the seat the search just found, not at some other seat
 					at := ps.Conds[0].V.At
 					okStop := false
-					for _, side := range []string{at.L, at.R} {
+					for _, side := range []string{inHelper(at.L), inHelper(at.R)} {
 						if search != nil && strings.HasPrefix(side, fnKey(search)+"(") {
 							okStop = true
 						}
@@ -186,7 +199,7 @@ func runC17(c *Ctx) {
 						if !(x.K == KAtom && x.At.Op == "is" && x.Neg && strings.Contains(x.At.String(), "[iter:") && search != nil) {
 							return false
 						}
-						if strings.Contains(x.At.String(), fnKey(search)+"(") {
+						if strings.Contains(x.At.String(), fnKey(search)+"(") || strings.Contains(inHelper(x.At.L), fnKey(search)+"(") || strings.Contains(inHelper(x.At.R), fnKey(search)+"(") {
 							return true
 						}
 						// a value defined before the loop on several paths is opaque in the body
